@@ -636,6 +636,7 @@ def run_c01(ctx):
             impl_plan=[(3, 2, OUT_ALL, None, False, ctx.pick(25, 120), ctx.pick(12, 30)),
                        (4, 3, OUT_ALL, ['ABSENT', 'DONE'], False, ctx.pick(15, 80), ctx.pick(10, 30)),
                        (5, 4, ['ok', 'ok', 'fail', 'raise'], None, False, ctx.pick(8, 40), ctx.pick(8, 25)),
+                       (8, 5, ['ok', 'ok', 'ok', 'fail', 'raise', 'none'], None, False, ctx.pick(4, 40), ctx.pick(5, 15)),
                        (4, 2, ['ok', 'ok', 'fail'], None, 'nested', ctx.pick(25, 120), ctx.pick(6, 15)),
                        (5, 3, ['ok', 'ok', 'raise'], None, 'nested', ctx.pick(15, 80), ctx.pick(6, 15))],
             sim_plan=[('c01sim_n3w2', 3, 2, 'MC_DagEmpty3', ctx.pick(250, 2500), 60),
@@ -658,7 +659,9 @@ def run_c02(ctx):
             impl_plan=[(3, 2, OUT_ALL, None, False, ctx.pick(30, 150), ctx.pick(10, 25)),
                        (3, 1, OUT_ALL, None, False, ctx.pick(15, 60), ctx.pick(4, 10)),
                        (4, 3, OUT_ALL, None, False, ctx.pick(20, 100), ctx.pick(10, 25)),
-                       (5, 2, OUT_ALL, None, False, ctx.pick(8, 40), ctx.pick(8, 25))],
+                       (5, 2, OUT_ALL, None, False, ctx.pick(8, 40), ctx.pick(8, 25)),
+                       (8, 4, OUT_ALL, None, False, ctx.pick(4, 40), ctx.pick(5, 15)),
+                       (4, 2, OUT_ALL, None, 'nested', ctx.pick(15, 80), ctx.pick(5, 12))],
             sim_plan=[('c02sim_n3w2', 3, 2, 'MC_DagEmptyMal', ctx.pick(250, 2500), 60)],
             dfs_plan=[(dict(PAIR, outcome={'1': 'badstatus'}), ctx.pick(1500, 40000))] + ([] if q else [(DIAMOND, 15000)]))
     import conf_decide
